@@ -809,7 +809,7 @@ func (s *Sim) findOrMakeRevision(set *asv1.StatefulSet, c *SetCfg, tv int, creat
 }
 
 // mkpod: A=set, B=ordinal, C=attribute bits, D=template version, S=explicit name.
-// bits: owner(2) | phase(3)<<2 | terminating<<5 | nomatch<<6 | revmode(2)<<7
+// bits: owner(2) | phase(3)<<2 | terminating<<5 | nomatch<<6 | revmode(2)<<7 | novolumes<<9
 func (s *Sim) stepMkPod(st Step) bool {
 	set, c := s.getSet(st.A)
 	if c == nil {
@@ -837,6 +837,16 @@ func (s *Sim) stepMkPod(st Step) bool {
 		rev = c.Name + "-dangling"
 	}
 	p := ModelPod(base, &tmpl, int32(abs(st.B)%10), rev)
+	if (bits>>9)&1 == 1 {
+		// a pod somebody built without the per-ordinal claim volumes (storage repair path)
+		var keep []v1.Volume
+		for _, vol := range p.Spec.Volumes {
+			if vol.PersistentVolumeClaim == nil {
+				keep = append(keep, vol)
+			}
+		}
+		p.Spec.Volumes = keep
+	}
 	if st.S != "" {
 		p.Name = st.S
 		p.Labels[lblPodName] = st.S
